@@ -21,12 +21,20 @@ import (
 	"github.com/smart-core-os/sc-golang/verifharness/lib"
 )
 
+// crashedFns: entry points whose probe cases killed a child process (crash.go); their in-process cases are skipped.
+var crashedFns = map[string]bool{}
+
 func main() {
+	if os.Getenv(childEnv) == "cases" {
+		childMain()
+		return
+	}
 	f := lib.ParseFlags()
 	if f.Replay != "" {
 		os.Exit(replay(f))
 	}
 	res := lib.NewResult("C17", f)
+	crashedFns = crashProbe(res)
 
 	exh := res.Tie("group-exhaustive", "K4",
 		"EXHAUSTIVE: member counts 0..4 (thorough: 0..5) x every ok/fail assignment x every completion order (permutation) x every strategy "+
@@ -34,7 +42,7 @@ func main() {
 			"(ExecuteAll/Most/Any/One/Fast/Race, ExecuteUpTo with every allowedErrors in -1..n); members are gated and released in the chosen order; "+
 			"and, for 1..3 members through group.Execute with the six strategies, the same with the failing members' errors taken from each of 9 further error classes "+
 			"(context.Canceled / DeadlineExceeded of the member's own, wrapped ones, gRPC status Canceled/DeadlineExceeded/Unavailable, a net.Error-like timeout, io.EOF) while the group's context is alive; "+
-			"and, for 1..3 members through Execute with the six strategies and ExecuteUpTo with every budget 0..n-1, members that all watch their context x every ok/fail vector x every order x the caller's context ending after each number of completions 0..n-1 x by cancellation / by its deadline; "+
+			"and, for 1..3 members (thorough: 1..4) through Execute with the six strategies and ExecuteUpTo with every budget 0..n-1, members that all watch their context x every ok/fail vector x every order x the caller's context ending after each number of completions 0..n-1 x by cancellation / by its deadline; "+
 			"compared: result slice or (msg,index,error), which error, the point at which the call returned, the members' context state after each completion, "+
 			"what each member saw, which members were started, goroutines left. non-trivial = n >= 1; distinct by full input")
 	exh.Exhaustive = true
@@ -181,6 +189,10 @@ func runGroupCases(cases []tcase, drv *lib.Driver, mon *lib.Monitor, parallelFro
 			mon.Count("skipped-after-leaking-cases:" + c.fn())
 			continue
 		}
+		if crashedFns[c.fn()] {
+			mon.Count("skipped-crashing-entry-point:" + c.fn())
+			continue
+		}
 		if thin.skip(i, fmt.Sprint(c.fn(), "/n=", c.n())) {
 			mon.Count("thinned-after-leaks")
 			continue
@@ -318,7 +330,11 @@ func exhaustiveCases(f lib.Flags) []tcase {
 	// their context (they report the context's error when they find it done, as a device call does): 1..3 members x
 	// every ok/fail vector x every completion order x every point 0..n-1 x both reasons, through Execute with the six
 	// strategies and ExecuteUpTo with every budget 0..n-1
-	for n := 1; n <= 3; n++ {
+	topCancel := 3
+	if f.Thorough() {
+		topCancel = 4
+	}
+	for n := 1; n <= topCancel; n++ {
 		type sa struct {
 			api, strat string
 			allowed    int
@@ -620,6 +636,11 @@ func replay(f lib.Flags) int {
 	if err := json.Unmarshal(b, &c); err != nil || (len(c.Order) != len(c.Behs) && !c.Burst) {
 		fmt.Println("replay: input is not a C17 case:", string(b))
 		return 2
+	}
+	// first in a child process: a case that kills the process must not kill the replay
+	if k, msg, err := runInChild([]tcase{c}); err == nil && k >= 0 {
+		fmt.Printf("replay %s\n  -> process crash\nSTILL FAILS C17/%s/process-crash: a goroutine started by the call panicked: the whole process went down (expected no panic, observed %s)\n", c.line(), c.fn(), msg)
+		return 1
 	}
 	if c.Burst {
 		o := runBurst(c)
